@@ -86,6 +86,20 @@ var calTemplates = []string{
 	"", "{S}", "{S}OR{S}1=1{S}LIMIT{S}1", "{S}AND{S}1=2",
 }
 
+// templates added after the first calibration (appended to the frozen file by
+// `harness calibrate -append`; the existing triples are never re-judged)
+var calTemplatesNew = []string{
+	";{S}CREATE{S}OR{S}REPLACE{S}FUNCTION{S}X()", ";{S}CREATE{S}OR{S}REPLACE{S}FUNCTION{S}X(){S}RETURNS{S}INT", ";{S}CREATE{S}OR{S}REPLACE{S}PROCEDURE{S}X", ";{S}CREATE{S}OR{S}REPLACE{S}VIEW{S}X{S}AS{S}SELECT{S}1",
+	";{S}CREATE{S}USER{S}X", ";{S}CREATE{S}FUNCTION{S}X()", ";{S}CREATE{S}PROCEDURE{S}X", ";{S}CREATE{S}DATABASE{S}X", ";{S}CREATE{S}TRIGGER{S}X",
+	";{S}GRANT{S}ALL{S}ON{S}X{S}TO{S}Y", ";{S}MERGE{S}INTO{S}X", ";{S}CALL{S}X()", ";{S}COPY{S}X{S}FROM{S}'Y'", ";{S}LOAD{S}DATA{S}INFILE{S}'X'", ";{S}EXECUTE{S}IMMEDIATE{S}'X'",
+	";{S}SET{S}@A=1", ";{S}KILL{S}1", ";{S}BACKUP{S}DATABASE{S}X", ";{S}PREPARE{S}X{S}FROM{S}'Y'", ";{S}REPLACE{S}INTO{S}X{S}VALUES(1)", ";{S}DROP{S}DATABASE{S}X", ";{S}DROP{S}USER{S}X",
+	";{S}EXEC{S}SP_EXECUTESQL{S}'X'", ";{S}EXECUTE{S}XP_CMDSHELL{S}'X'", ";{S}RENAME{S}TABLE{S}X{S}TO{S}Y", ";{S}LOCK{S}TABLE{S}X", ";{S}SELECT{S}PG_SLEEP(5)", ";{S}SELECT{S}SLEEP(5)",
+	"{S}UNION{S}SELECT{S}1{S}INTO{S}OUTFILE{S}'X'", "{S}UNION{S}SELECT{S}GROUP_CONCAT(TABLE_NAME){S}FROM{S}INFORMATION_SCHEMA.TABLES", "{S}UNION{S}ALL{S}SELECT{S}NULL,NULL", "{S}UNION{S}SELECT{S}CHAR(65)",
+	"{S}OR{S}1=1{S}ORDER{S}BY{S}1", "{S}OR{S}EXISTS(SELECT{S}1)", "{S}OR{S}1{S}NOT{S}IN{S}(2)", "{S}OR{S}'A'{S}LIKE{S}'A'", "{S}OR{S}1{S}REGEXP{S}1", "{S}OR{S}ISNULL(1)", "{S}AND{S}(1)=(1)", "{S}OR{S}(1)=(1)",
+	"{S}AND{S}SLEEP(5)#", "{S}OR{S}IF(1=1,SLEEP(5),0)", "{S}AND{S}MAKE_SET(1,SLEEP(5))", "{S}AND{S}ELT(1,SLEEP(5))", "{S}OR{S}GTID_SUBSET(VERSION(),1)", "{S}AND{S}JSON_KEYS((SELECT{S}1))",
+	"{S}LIMIT{S}1{S}PROCEDURE{S}ANALYSE()", "{S}LIMIT{S}1{S}INTO{S}OUTFILE{S}'X'", "{S}AND{S}1{S}IN{S}(SELECT{S}1)", "{S}AND{S}(SELECT{S}COUNT(*){S}FROM{S}X)>0", "{S}OR{S}(SELECT{S}1{S}FROM{S}DUAL)=1",
+}
+
 var calTails = []string{"", "--", "--{S}", "--{S}-", "#", "/*", ";--", ";{S}--", "{S}--", "{S}#", "{S}/*", "--{S}x", "{S}--{S}-", ";", ";#", "-- -"}
 
 func detectedAll(t triple, r *rng, mixed int) bool {
@@ -123,8 +137,43 @@ func detectedAll(t triple, r *rng, mixed int) bool {
 func calibrateMain(args []string) {
 	fs := flag.NewFlagSet("calibrate", flag.ExitOnError)
 	out := fs.String("out", "/verif/grammar/sqli_grammar.txt", "")
+	appendNew := fs.Bool("append", false, "judge only the templates of calTemplatesNew and append the kept triples to the file")
 	fs.Parse(args)
 	r := newRng(20260926)
+	if *appendNew {
+		have := map[string]bool{}
+		if data, err := os.ReadFile(*out); err == nil {
+			for _, ln := range strings.Split(string(data), "\n") {
+				have[ln] = true
+			}
+		}
+		f, err := os.OpenFile(*out, os.O_APPEND|os.O_WRONLY, 0o644)
+		if err != nil {
+			fmt.Println(err)
+			os.Exit(2)
+		}
+		defer f.Close()
+		bw := bufio.NewWriter(f)
+		defer bw.Flush()
+		kept, total := 0, 0
+		for _, p := range calPrefixes {
+			for _, tm := range calTemplatesNew {
+				for _, tl := range calTails {
+					line := fmt.Sprintf("%s\t%s\t%s", esc(p), esc(tm), esc(tl))
+					if have[line] {
+						continue
+					}
+					total++
+					if detectedAll(triple{p, tm, tl}, r, 200) {
+						kept++
+						fmt.Fprintln(bw, line)
+					}
+				}
+			}
+		}
+		fmt.Printf("calibrate -append: kept %d of %d new candidate triples\n", kept, total)
+		return
+	}
 	w, _ := os.Create(*out)
 	defer w.Close()
 	bw := bufio.NewWriter(w)
